@@ -22,7 +22,7 @@ var recRelay = ev.New("C11", "relay-scenarios",
 		"with scripted delays, paced and burst traffic, client address changes, garbage/unauthenticated/replayed datagrams (fenced and interleaved), "+
 		"replies from non-target sources. Oracle: tagged payloads (session, seq, intended destination, checksum) judged at every harness-owned socket. "+
 		"Non-trivial: >=2 concurrent sessions reaching different target sockets with >=1 destination addressed by name; distinct key = configuration class").
-	Require("name-target", "address-change", "fenced-garbage", "topology:peer", "topology:direct", "batch:no", "batch:sendmmsg")
+	Require("name-target", "ss2022-address-change", "fenced-garbage", "topology:peer", "topology:direct", "batch:no", "batch:sendmmsg")
 
 func workDir(t interface{ TempDir() string }) string {
 	if d := os.Getenv("VERIF_WORK"); d != "" {
@@ -58,6 +58,10 @@ func checkPlan(t interface {
 	out := runPlan(p, dir)
 	if out.setupErr == nil && out.violation == "" && len(out.liveMiss) > 0 {
 		recRelay.Label("liveness-retried", 1)
+		if os.Getenv("VERIF_DEBUG") != "" {
+			pj, _ := json.Marshal(p)
+			fmt.Fprintf(os.Stderr, "C11 liveness miss (will retry): %v\nplan=%s\n", out.liveMiss, pj)
+		}
 		first := out.liveMiss
 		out = runPlan(p, dir)
 		if out.setupErr == nil && out.violation == "" && len(out.liveMiss) > 0 {
